@@ -199,7 +199,7 @@ def run(tier, seed):
     ev.sample({"row": rows[len(rows) // 2]["task"], "kw": rows[len(rows) // 2]["kw"],
                "entries": rows[len(rows) // 2]["entries"][:3]})
     ev.cov["rule"] = ("every keyword subset (size <= %d) of every task's pool x seeded inputs incl. empty sides; evaluate() compared "
-                      "key-by-key, bit-identically, with the table-driven direct calls; distinct = distinct (task, subset, input); "
+                      "key-by-key, bit-identically, with the table-driven direct calls (the repository's annotation fixtures for a sample of the subsets); distinct = distinct (task, subset, input); "
                       "non-trivial = non-empty keyword subset" % (4 if thorough else 2))
     ev.cov["exhaustive"] = True
     ev.d["assumptions"] = ["keyword values come from an in-range table in the harness; pre-processing is replayed through the public "
